@@ -21,12 +21,29 @@
 (* EndBlock.  The value written by transaction number n is n, so a read    *)
 (* tells whose write it saw; 0 = absent.                                    *)
 (*                                                                         *)
+(* C13: Run(c) / Activity(a) steps execute the block built so far again on  *)
+(* the same prior state (without connecting it) under a condition (fresh or *)
+(* long-running process, CPU count) or perform process-local activity; they *)
+(* change nothing, and the harness binds the digest of the first execution  *)
+(* of a term (prior chain, block) and demands byte equality from every      *)
+(* later one (field det of the prediction).                                 *)
+(*                                                                         *)
+(* Configurations: Exec_MC(t).cfg C11 exhaustive; Exec_C12_MC(t).cfg C12     *)
+(* exhaustive; Exec_C13_MC(t).cfg C13 exhaustive; Exec_C1x_Gen*.cfg          *)
+(* simulation (behaviour generation); Exec_All + Exec_C12_All*.cfg the      *)
+(* exhaustive export of the C12 decision table; Exec_Trace the trace spec    *)
+(* of C13's recorded executions.                                            *)
+(*                                                                         *)
 (* Deliberately NOT compared with the code: error codes and error-log      *)
 (* texts, receipt logs other than the echoed reads, key/value bytes of the *)
 (* fee account (only the charged amount), index-plugin local keys, and -   *)
 (* for a local key without the executor's prefix - whether the whole block *)
 (* is refused (what the code does) or only that transaction fails (both    *)
 (* keep the key out of the local data; EndBlock carries both outcomes).    *)
+(* Not modelled: transient API errors (IsAPIEnvError), transactions that   *)
+(* cannot pay their fee or are otherwise invalid (ExecErr, dropped from    *)
+(* the block), groups mixing chains (invalid as a whole), executors other  *)
+(* than the script executors approving keys (coins approves nothing here). *)
 (***************************************************************************)
 EXTENDS Integers, Sequences, FiniteSets, Json, TLC
 
@@ -224,9 +241,9 @@ LPrefixOK(t) == \A j \in 1..Len(t.lret) : LAllowed(t.lret[j][1], t.e)
 TxLocalDone ==
   /\ phase = "local"
   /\ phase' = "end"
-  /\ IF ~IsSameTime THEN cur' = [cur EXCEPT !.bad = ~LPrefixOK(cur)] /\ UNCHANGED <<tlo, plw, runs>>
-     ELSE IF ~LCovered(cur) THEN cur' = [cur EXCEPT !.failed = TRUE] /\ UNCHANGED <<tlo, plw, runs>>
-     ELSE IF ~LPrefixOK(cur) THEN cur' = [cur EXCEPT !.bad = TRUE] /\ UNCHANGED <<tlo, plw, runs>>
+  /\ IF ~IsSameTime THEN cur' = [cur EXCEPT !.bad = ~LPrefixOK(cur)] /\ UNCHANGED <<tlo, plw>>
+     ELSE IF ~LCovered(cur) THEN cur' = [cur EXCEPT !.failed = TRUE] /\ UNCHANGED <<tlo, plw>>
+     ELSE IF ~LPrefixOK(cur) THEN cur' = [cur EXCEPT !.bad = TRUE] /\ UNCHANGED <<tlo, plw>>
      ELSE /\ tlo' = Fold(tlo, cur.lret) /\ plw' = plw \o cur.lret /\ UNCHANGED cur
   /\ UNCHANGED <<st, lo, bst, blo, dlo, tst, cw, clw, pw, g, rc, nblk, nitem, ntx, nops, rej, last, runs>>
   /\ Emit([op |-> "LocalDone"])
